@@ -160,6 +160,18 @@ check('C17', level='exploration', steps=[dict(builder=build_c17, name='options')
       rule=RULE_CORPUS + "; every address is run through the 8 option builds side by side; non-trivial = addresses that can trigger an option (an RFC 20 character, '_' in a host name, control/whitespace in the local part)",
       deadline=dict(quick=300, thorough=3000))
 
+ASAN_ENV = {'ASAN_OPTIONS': 'detect_leaks=1:abort_on_error=0:exitcode=77:allocator_may_return_null=1:detect_stack_use_after_return=0', 'UBSAN_OPTIONS': 'print_stacktrace=1:halt_on_error=1', 'LSAN_OPTIONS': 'leak_check_at_exit=0'}
+COSTWRAP = '-Wl,' + ','.join('--wrap=' + w for w in ['memcpy', 'memchr', 'strchr', 'strrchr', 'strspn', 'strncasecmp', 'strlen'])
+check('C06', level='exploration', steps=[
+          dict(src='drv/c06.c', variant='asan', name='asan-ubsan-lsan', env=ASAN_ENV),
+          dict(src='drv/c06.c', variant='plain', defs=['-DGUARD'], name='guard-pages'),
+          dict(src='drv/c06cost.c', variant='covbb', name='linear-work', ldflags=[COSTWRAP]),
+          dict(builder=build_hist, name='hist-memcheck', prop='C13', backends=['idn2'], xargs=['--maxdepth', '3', '--nopoison'],
+               cmdprefix=['valgrind', '-q', '--error-exitcode=9', '--undef-value-errors=yes', '--leak-check=no', '--child-silent-after-fork=no']),
+      ],
+      rule=RULE_CORPUS + "; every input is placed in a fresh exact-size heap buffer (ASan/UBSan/LSan build) and against PROT_NONE guard pages on both sides (plain build), and driven through all public entry points",
+      deadline=dict(quick=420, thorough=3000))
+
 # ---------------------------------------------------------------------------
 def load_findings():
     p = os.path.join(V, 'known_findings.json')
@@ -193,7 +205,7 @@ def build_step(bdir, step):
                            libs=step.get('libs', ('-lidn2',)), ldflags=step.get('ldflags', ()))
 
 def run_step(exe, step, tier, out, known_ids, deadline, env=None):
-    cmd = [exe, '--tier', tier, '--out', out, '--workers', str(NCPU), '--deadline', str(deadline)]
+    cmd = step.get('cmdprefix', []) + [exe, '--tier', tier, '--out', out, '--workers', str(NCPU), '--deadline', str(deadline)]
     if known_ids:
         cmd += ['--known', ','.join(known_ids)]
     cmd += step.get('args', [])
@@ -264,7 +276,7 @@ def run_check(pid, tier):
                 ok = None
                 if step.get('kind') != 'py' and step['name'] in exes and not c.get('sub', '').startswith('noreplay'):
                     e = dict(os.environ); e.update(step.get('env', {}))
-                    r = subprocess.run([exes[step['name']], '--replay', path] + step.get('args', []), env=e, stdout=subprocess.PIPE, stderr=subprocess.STDOUT, text=True, errors='replace')
+                    r = subprocess.run(step.get('cmdprefix', []) + [exes[step['name']], '--replay', path] + step.get('args', []), env=e, stdout=subprocess.PIPE, stderr=subprocess.STDOUT, text=True, errors='replace')
                     ok = (r.returncode != 0)
                     if not ok:
                         print('HARNESS-ERROR property=%s violation did not reproduce on replay: %s (%s)' % (pid, path, c.get('msg')))
@@ -290,6 +302,9 @@ def run_check(pid, tier):
         print('%s %s: evaluations=%d distinct_nontrivial=%d exhaustive=%s wall=%.1fs violations(classes)=%d known=%d' % (
             pid, tier, cov['evaluations'], cov['distinct_nontrivial'], cov['exhaustive'], ev['wall_s'], unknown_classes, len(known_lines)))
         if harness_err: return 2
+        for step, res in results:
+            if not res.get('all_phases_complete', 1) and not res.get('deadline_hit') and not res.get('classes'):
+                print('HARNESS-ERROR property=%s step %s left a phase incomplete without a deadline and without a recorded violation' % (pid, step['name'])); return 2
         return 1 if unknown_classes else 0
     except RuntimeError as ex:
         print('HARNESS-ERROR property=%s %s' % (pid, ex)); return 2
